@@ -85,5 +85,6 @@ Definition expected_inventory : list (string * string * string * string) := [
   ("recover", "catalog", "ObjectBuilder.Build", "");
   ("recover", "core", "pSchema.compilePathVariables", "");
   ("recover", "core", "pSchema.loadPathVariables", "");
+  ("recover", "kit", "openAPIPanicFree", "");
   ("recover", "kit", "readPanicFree", "")
 ].
